@@ -42,7 +42,13 @@ P_PLUS == 210    P_TIMES == 220   P_POWER == 230   P_UNARY == 240   P_CALL == 25
 IsIntTok(t) == \E n \in 0..30 : t = ToString(n)
 IntTokVal(t) == CHOOSE n \in 0..30 : t = ToString(n)
 FloatTable == << << "0.5", 1, 2 >>, << "1.5", 3, 2 >>, << "2.5", 5, 2 >>, << "0.25", 1, 4 >>,
-                 << "0.0", 0, 1 >>, << "1.0", 1, 1 >>, << "2.0", 2, 1 >>, << "3.0", 3, 1 >> >>
+                 << "0.0", 0, 1 >>, << "1.0", 1, 1 >>, << "2.0", 2, 1 >>, << "3.0", 3, 1 >>,
+                 \* other spellings of float literals (all with exactly representable values):
+                 \* no digits after / before the point, exponents with and without sign, capital E
+                 << "2.", 2, 1 >>, << ".5", 1, 2 >>, << "1e3", 1000, 1 >>, << "1e+3", 1000, 1 >>,
+                 << "1E+3", 1000, 1 >>, << "2e+2", 200, 1 >>, << "12e+0", 12, 1 >>, << "25e-2", 1, 4 >>,
+                 << "5e-1", 1, 2 >>, << "2.5e+1", 25, 1 >>, << ".5e+1", 5, 1 >>, << "2.e1", 20, 1 >>,
+                 << "1.5E1", 15, 1 >>, << "0e0", 0, 1 >> >>
 IsFloatTok(t) == (\E i \in 1..Len(FloatTable) : FloatTable[i][1] = t) \/ t \in {"1e-05", "1e+20"}
 FloatTokConst(t) ==
     IF t \in {"1e-05", "1e+20"} THEN K([k |-> "fstr", s |-> t])
